@@ -14,59 +14,50 @@ instance IDs are never corrupted.
 What is proved, about the model in `Model/Peers.lean` (which transcribes `pubsub_redis.go` and
 `mapttl.go`):
 
-* codec — the full round-trip statement is **false** (`codec_roundtrip_refuted`: a comma in the
-  address is read as the separator); it holds exactly for comma-free addresses
-  (`codec_roundtrip_partial`, `codec_roundtrip_iff`), and every accepted message is a well-formed
-  marshalling (`codec_accepts_only_marshalled`).
+* codec — `unmarshal` splits at the **last** comma (repaired in /repo commit 7f6234c; before, it
+  split at the first one and an address with a comma was mis-read).  The round trip holds exactly
+  when the *id* contains no comma, for every address (`codec_roundtrip`, `codec_roundtrip_iff`);
+  ids are not user input: the only producer is `cmd/refinery/main.go`
+  (`instanceID := fmt.Sprintf("%08.8x", …)`, eight hex digits).  Every accepted message is a
+  well-formed marshalling (`codec_accepts_only_marshalled`).
 * membership — for **every** event list a node can experience (any interleaving and reordering of
   deliveries and `GetPeers` calls, monotone clock, each delivery at most `d` late):
   `presence_by_history`, `stale_expires`, `live_persists`, `self_persists`, `converges`
-  (+ `converges_list` for the literal `GetPeers` result).  The constants are those of the code
+  (+ `converges_list` for the literal `GetPeers` result), for **any address** of the live nodes
+  (`live_persists_any_address`), ids comma-free.  The constants are those of the code
   (`Gen/Peers.lean`), the side condition `refresh + jitter + d < TTL` is discharged on them.
-  Because the codec mis-reads commas, `live_persists`/`converges` need the live nodes' addresses
-  to be comma-free; `live_persists_refuted_with_comma` shows the conclusion fails without that.
 -/
 namespace Refinery.Props.C18
 open Refinery Refinery.Model.Peers
 
 /-! ## 1. codec -/
 
-/-- **Full statement** of "membership messages round-trip exactly": every command decodes to
-itself, whatever strings the address and the id are. -/
-def CodecRoundtrip : Prop := ∀ c : Cmd, unmarshal (marshal c) = some c
-
-/-- `http://a,b:8081` -/
+/-- `http://a,b:8081` — the address that the code before commit 7f6234c mis-read -/
 def witnessAddr : Bytes := [104, 116, 116, 112, 58, 47, 47, 97, 44, 98, 58, 56, 48, 56, 49]
 /-- `id1` -/
 def witnessId : Bytes := [105, 100, 49]
 
-/-- The code does **not** satisfy the full statement: registering address `http://a,b:8081` with
-id `id1` is decoded as address `http://a`, id `b:8081,id1`. -/
-theorem codec_roundtrip_refuted : ¬ CodecRoundtrip := by
-  intro h
-  have := h ⟨.register, witnessId, witnessAddr⟩
-  revert this
-  decide
-
-/-- what the witness decodes to: address `http://a`, id `b:8081,id1` -/
-example : unmarshal (marshal ⟨.register, witnessId, witnessAddr⟩) =
-    some ⟨.register, [98, 58, 56, 48, 56, 49, 44, 105, 100, 49], [104, 116, 116, 112, 58, 47, 47, 97]⟩ := by decide
-
-/-- **codec_roundtrip_partial** — a command whose address contains no comma decodes to itself:
-action, address and id (the id may be any string, commas and the empty string included). -/
-theorem codec_roundtrip_partial (c : Cmd) (h : comma ∉ c.address) : unmarshal (marshal c) = some c :=
+/-- **codec_roundtrip** — membership messages round-trip exactly: a command decodes to itself —
+action, address and id — for **every** address string (commas and the empty string included),
+provided the id contains no comma.  Ids are produced only by `cmd/refinery/main.go`
+(`fmt.Sprintf("%08.8x", …)`: eight hex digits), so the proviso always holds in a running cluster. -/
+theorem codec_roundtrip (c : Cmd) (h : comma ∉ c.id) : unmarshal (marshal c) = some c :=
   unmarshal_marshal_of_no_comma c h
 
 /-- …and that hypothesis is exactly what is needed. -/
-theorem codec_roundtrip_iff (c : Cmd) : unmarshal (marshal c) = some c ↔ comma ∉ c.address :=
-  ⟨fun h => (unmarshal_sound h).2, codec_roundtrip_partial c⟩
+theorem codec_roundtrip_iff (c : Cmd) : unmarshal (marshal c) = some c ↔ comma ∉ c.id :=
+  ⟨fun h => (unmarshal_sound h).2, codec_roundtrip c⟩
 
-/-- How a comma is mis-read, in general: the address is cut at its first comma and the rest moves
-in front of the id. -/
-theorem codec_comma_misread (act : Action) (id pre post : Bytes) (h : comma ∉ pre) :
-    unmarshal (marshal ⟨act, id, pre ++ comma :: post⟩) = some ⟨act, post ++ comma :: id, pre⟩ := by
+/-- What a comma in an *id* would do (no producer of such ids exists): the id is cut at its last
+comma and what precedes it is appended to the address. -/
+theorem codec_id_comma_misread (act : Action) (addr pre post : Bytes) (h : comma ∉ post) :
+    unmarshal (marshal ⟨act, pre ++ comma :: post, addr⟩) = some ⟨act, post, addr ++ comma :: pre⟩ := by
   rw [marshal_comma_ambiguous]
   exact unmarshal_marshal_of_no_comma _ h
+
+/-- regression witness of the repaired defect: `http://a,b:8081` / `id1` now round-trips -/
+example : unmarshal (marshal ⟨.register, witnessId, witnessAddr⟩) = some ⟨.register, witnessId, witnessAddr⟩ := by
+  decide
 
 /-- Every message the decoder accepts is byte for byte the marshalling of the command it returns
 (so nothing but `R…`/`U…` with a separator is accepted, and decoding loses nothing). -/
@@ -178,7 +169,7 @@ theorem live_persists_local (ttl d : Int) (self : Node) (startT : Int) (evs : Li
 
 /-! ## 3. the node in the network -/
 
-theorem unmarshal_regMsg (n : Node) (h : comma ∉ n.addr) :
+theorem unmarshal_regMsg (n : Node) (h : comma ∉ n.id) :
     unmarshal (regMsg n) = some ⟨.register, n.id, n.addr⟩ :=
   unmarshal_marshal_of_no_comma ⟨.register, n.id, n.addr⟩ h
 
@@ -186,13 +177,14 @@ theorem onlyReg_of_onlyOwn {P : Pubs} {d startT : Int} {evs : List Ev} {t : Int}
     (hF : Fair P d startT evs t) (hown : OnlyOwn P n) : OnlyReg n.id n.addr evs :=
   fun s a m c hm hu hid => hown s m c (hF.1 s a m hm) hu hid
 
-/-- **live_persists** — a node `n` that re-registers at least every `G` from `S` on (and whose id
+/-- **live_persists** — a node `n` (any address; id without a comma, as all generated ids are)
+that re-registers at least every `G` from `S` on (and whose id
 nobody else uses) is listed, with its address, by every node that has been subscribed since
 `startT`, at every instant after `max S startT + G + d` — because `G + d < ttl`, the entry is
 always refreshed before it expires, in whatever order the refreshes arrive. -/
 theorem live_persists (ttl d G : Int) (P : Pubs) (self : Node) (startT : Int) (evs : List Ev) (t S : Int) (n : Node)
     (hT : Timed d startT evs t) (hF : Fair P d startT evs t)
-    (hpub : PublishesEvery P n S G) (hown : OnlyOwn P n) (hcf : comma ∉ n.addr)
+    (hpub : PublishesEvery P n S G) (hown : OnlyOwn P n) (hcf : comma ∉ n.id)
     (hside : G + d < ttl)
     (ht1 : S + G + d < t) (ht2 : startT + G + d < t) :
     lookup (stateAt ttl self startT evs t) n.id = some n.addr := by
@@ -207,7 +199,7 @@ writes the entry and the node's own registers, which come back over the topic wi
 keep it alive. -/
 theorem self_persists (ttl d G : Int) (P : Pubs) (self : Node) (startT : Int) (evs : List Ev) (t : Int)
     (hT : Timed d startT evs t) (hF : Fair P d startT evs t)
-    (hpub : PublishesEvery P self startT G) (hown : OnlyOwn P self) (hcf : comma ∉ self.addr)
+    (hpub : PublishesEvery P self startT G) (hown : OnlyOwn P self) (hcf : comma ∉ self.id)
     (hside : G + d < ttl) :
     lookup (stateAt ttl self startT evs t) self.id = some self.addr := by
   by_cases h : t ≤ startT + ttl
@@ -228,15 +220,15 @@ theorem stale_expires_net (ttl d : Int) (P : Pubs) (self : Node) (startT : Int) 
 def liveAddr (live : List Node) (k : Bytes) : Option Bytes :=
   (live.find? (fun n => n.id = k)).map (·.addr)
 
-/-- **converges** — membership stops changing at `T0`: from then on the nodes in `live` (comma-free
-addresses) each re-register at least every `G` and nobody else publishes a register.  Then at
+/-- **converges** — membership stops changing at `T0`: from then on the nodes in `live` (any
+addresses; ids comma-free) each re-register at least every `G` and nobody else publishes a register.  Then at
 every instant after `T0 + d + ttl`, for every delivery schedule with delays `≤ d` and any
 reordering, a node that was up by `T0` lists exactly the live nodes: each live id with its
 address, and no other id. -/
 theorem converges (ttl d G : Int) (P : Pubs) (live : List Node) (self : Node) (startT : Int)
     (evs : List Ev) (t T0 : Int)
     (hT : Timed d startT evs t) (hF : Fair P d startT evs t) (hstart : startT ≤ T0)
-    (hlive : ∀ n ∈ live, comma ∉ n.addr ∧ PublishesEvery P n T0 G ∧ OnlyOwn P n)
+    (hlive : ∀ n ∈ live, comma ∉ n.id ∧ PublishesEvery P n T0 G ∧ OnlyOwn P n)
     (hdead : ∀ k, (∀ n ∈ live, n.id ≠ k) → Silent P k T0)
     (hside : G + d < ttl) (hd : 0 ≤ d)
     (ht : T0 + d + ttl < t) (k : Bytes) :
@@ -263,7 +255,7 @@ node's own address if nobody is live — `GetPeers` never returns an empty list)
 theorem converges_list (ttl d G : Int) (P : Pubs) (live : List Node) (self : Node) (startT : Int)
     (evs : List Ev) (t T0 : Int)
     (hT : Timed d startT evs t) (hF : Fair P d startT evs t) (hstart : startT ≤ T0)
-    (hlive : ∀ n ∈ live, comma ∉ n.addr ∧ PublishesEvery P n T0 G ∧ OnlyOwn P n)
+    (hlive : ∀ n ∈ live, comma ∉ n.id ∧ PublishesEvery P n T0 G ∧ OnlyOwn P n)
     (hdead : ∀ k, (∀ n ∈ live, n.id ≠ k) → Silent P k T0)
     (hnd : (live.map (·.id)).Nodup)
     (hside : G + d < ttl) (hd : 0 ≤ d)
@@ -350,7 +342,7 @@ interval and jitter, any delivery delay `d ≤ 6 s`. -/
 theorem converges_code (d : Int) (P : Pubs) (live : List Node) (self : Node) (startT : Int)
     (evs : List Ev) (t T0 : Int) (hd : 0 ≤ d) (hdmax : d ≤ maxDelay)
     (hT : Timed d startT evs t) (hF : Fair P d startT evs t) (hstart : startT ≤ T0)
-    (hlive : ∀ n ∈ live, comma ∉ n.addr ∧ OnlyOwn P n ∧
+    (hlive : ∀ n ∈ live, comma ∉ n.id ∧ OnlyOwn P n ∧
       ∃ S jitter, S ≤ T0 ∧ 0 ≤ jitter ∧ jitter < Gen.Peers.refreshJitterBound ∧
         Ticker P n S (Gen.Peers.refreshCacheInterval + jitter))
     (hdead : ∀ k, (∀ n ∈ live, n.id ≠ k) → Silent P k T0)
@@ -372,7 +364,7 @@ exactly the live nodes at every instant after `T0 + PeerEntryTimeout + refreshCa
 theorem converges_within_timeout_plus_refresh (d : Int) (P : Pubs) (live : List Node) (self : Node)
     (startT : Int) (evs : List Ev) (t T0 : Int) (hd : 0 ≤ d) (hdr : d ≤ Gen.Peers.refreshCacheInterval)
     (hT : Timed d startT evs t) (hF : Fair P d startT evs t) (hstart : startT ≤ T0)
-    (hlive : ∀ n ∈ live, comma ∉ n.addr ∧ OnlyOwn P n ∧
+    (hlive : ∀ n ∈ live, comma ∉ n.id ∧ OnlyOwn P n ∧
       ∃ S jitter, S ≤ T0 ∧ 0 ≤ jitter ∧ jitter < Gen.Peers.refreshJitterBound ∧
         Ticker P n S (Gen.Peers.refreshCacheInterval + jitter))
     (hdead : ∀ k, (∀ n ∈ live, n.id ≠ k) → Silent P k T0)
@@ -382,73 +374,34 @@ theorem converges_within_timeout_plus_refresh (d : Int) (P : Pubs) (live : List 
     simp only [maxDelay, Gen.Peers.refreshCacheInterval] at *; omega
   exact converges_code d P live self startT evs t T0 hd h1 hT hF hstart hlive hdead (by omega) k
 
-/-! ## 5. what the comma does to membership -/
+/-! ## 5. addresses with commas -/
 
-/-- **Full statement** of `live_persists`, without the restriction on the address. -/
+/-- **Full statement** of `live_persists` with no restriction on the address (the statement the
+code before commit 7f6234c violated). -/
 def LivePersistsAnyAddress : Prop :=
   ∀ (ttl d G : Int) (P : Pubs) (self : Node) (startT : Int) (evs : List Ev) (t S : Int) (n : Node),
+    comma ∉ n.id →
     Timed d startT evs t → Fair P d startT evs t → PublishesEvery P n S G → OnlyOwn P n →
     G + d < ttl → S + G + d < t → startT + G + d < t →
     lookup (stateAt ttl self startT evs t) n.id = some n.addr
+
+/-- **live_persists_any_address** — it holds: a live node is listed under its id with its exact
+address whatever bytes the address contains. -/
+theorem live_persists_any_address : LivePersistsAnyAddress :=
+  fun ttl d G P self startT evs t S n hcf hT hF hpub hown hside h1 h2 =>
+    live_persists ttl d G P self startT evs t S n hT hF hpub hown hcf hside h1 h2
 
 /-- node `id1` at `http://a,b:8081` -/
 def commaNode : Node := ⟨witnessId, witnessAddr⟩
 /-- an observer, id `o` -/
 def observer : Node := ⟨[111], [104]⟩
-/-- `commaNode` registers at 3, 6, 9, …; nothing else is published -/
-def commaPubs : Pubs := fun s m => m = regMsg commaNode ∧ ∃ i : Nat, s = ((i : Int) + 1) * 3
-/-- the observer handles each register the instant it is published -/
+/-- the observer handles each of `commaNode`'s registers (published at 3, 6, 9) at once -/
 def commaEvs : List Ev :=
   [.recv 3 3 (regMsg commaNode), .recv 6 6 (regMsg commaNode), .recv 9 9 (regMsg commaNode)]
 
-theorem commaNode_decodes : unmarshal (regMsg commaNode) =
-    some ⟨.register, [98, 58, 56, 48, 56, 49, 44, 105, 100, 49], [104, 116, 116, 112, 58, 47, 47, 97]⟩ := by
-  decide
-
-/-- The code does not satisfy it: a live node whose address contains a comma re-registers every
-3 time units, every message arrives instantly, and yet at instant 12 (`ttl = 10`) an observer does
-not list its id — it lists the id `b:8081,id1` with address `http://a` instead, so the peer list
-never becomes the live set. -/
-theorem live_persists_refuted_with_comma : ¬ LivePersistsAnyAddress := by
-  intro h
-  have hT : Timed 0 0 commaEvs 12 := by delta commaEvs; simp [Timed, Ev.time, Ev.DelayOK]
-  have hF : Fair commaPubs 0 0 commaEvs 12 := by
-    refine ⟨?_, ?_⟩
-    · intro s a m hm
-      delta commaEvs at hm
-      simp only [List.mem_cons, Ev.recv.injEq, List.not_mem_nil, or_false] at hm
-      rcases hm with ⟨rfl, _, rfl⟩ | ⟨rfl, _, rfl⟩ | ⟨rfl, _, rfl⟩
-      · exact ⟨rfl, 0, by decide⟩
-      · exact ⟨rfl, 1, by decide⟩
-      · exact ⟨rfl, 2, by decide⟩
-    · intro s m hP h0 h12
-      obtain ⟨rfl, i, rfl⟩ := hP
-      have hi : i = 0 ∨ i = 1 ∨ i = 2 := by omega
-      rcases hi with rfl | rfl | rfl
-      · exact ⟨3, by delta commaEvs; simp⟩
-      · exact ⟨6, by delta commaEvs; simp⟩
-      · exact ⟨9, by delta commaEvs; simp⟩
-  have hpub : PublishesEvery commaPubs commaNode 0 3 := by
-    intro τ hτ
-    have hq : 0 ≤ τ / 3 := Int.ediv_nonneg hτ (by decide)
-    refine ⟨((((τ / 3).toNat : Int) + 1) * 3), ?_, ?_, rfl, (τ / 3).toNat, rfl⟩
-    · rw [Int.toNat_of_nonneg hq]; omega
-    · rw [Int.toNat_of_nonneg hq]; omega
-  have hown : OnlyOwn commaPubs commaNode := by
-    intro s m c hP hu hid
-    obtain ⟨rfl, _⟩ := hP
-    -- the only published message decodes to id `b:8081,id1`, never to `id1`
-    rw [commaNode_decodes] at hu
-    cases hu
-    revert hid
-    decide
-  have hcall := h 10 0 3 commaPubs observer 0 commaEvs 12 0 commaNode hT hF hpub hown
-    (by decide) (by decide) (by decide)
-  revert hcall
-  decide
-
-/-- what the observer lists instead, at that instant -/
-example : peersAt 10 observer 0 commaEvs 12 = [[104, 116, 116, 112, 58, 47, 47, 97]] := by decide
+/-- regression witness: at instant 12 (`ttl = 10`) the observer lists `id1` at `http://a,b:8081` -/
+example : lookup (stateAt 10 observer 0 commaEvs 12) commaNode.id = some commaNode.addr := by decide
+example : peersAt 10 observer 0 commaEvs 12 = [witnessAddr] := by decide
 
 /-! ## 6. non-vacuity: concrete histories, evaluated by the kernel -/
 
